@@ -126,7 +126,7 @@ func (s *JavaAPIListener) EnterAnnotation(ctx *parser.AnnotationContext) {
 			}
 			if pair.Identifier().GetText() == "value" {
 				text := pair.ElementValue().GetText()
-				currentRestAPI.Uri = baseApiUrl + text[1:len(text)-1]
+				currentRestAPI.Uri = baseApiUrl + unquote(text)
 			}
 		}
 	}
@@ -141,12 +141,12 @@ func buildBaseApiUrlString(annotationName string, ctx *parser.AnnotationContext)
 				pair := valuePair.(*parser.ElementValuePairContext)
 				if pair.Identifier().GetText() == "value" {
 					text := pair.ElementValue().GetText()
-					baseApiUrl = text[1 : len(text)-1]
+					baseApiUrl = unquote(text)
 				}
 			}
 		} else if ctx.ElementValue() != nil {
 			text := ctx.ElementValue().GetText()
-			baseApiUrl = text[1 : len(text)-1]
+			baseApiUrl = unquote(text)
 		} else {
 			baseApiUrl = "/"
 		}
@@ -315,4 +315,12 @@ func (s *JavaAPIListener) AppendClasses(classes []core_domain.CodeDataStruct) {
 
 func (s *JavaAPIListener) GetClassApis() []api_domain2.RestAPI {
 	return restAPIs
+}
+
+// unquote strips the quotes of a string-literal annotation value; constants and other expressions are kept as written
+func unquote(text string) string {
+	if len(text) >= 2 && strings.HasPrefix(text, "\"") && strings.HasSuffix(text, "\"") {
+		return text[1 : len(text)-1]
+	}
+	return text
 }
